@@ -193,6 +193,15 @@ func (w *world) Ops() []seqx.Op {
 			if full {
 				ops = append(ops, op{C: i, Kind: "requestStream", Arg: d.ID})
 			}
+			// an explicitly empty per-stream request: the subscriber gives the
+			// stream up and the server closes it.  Only offered while no
+			// delayed push is pending: a stream obtained through a request
+			// while its replacement is still to be announced is looked up
+			// under the replaced id, and what then happens to an empty
+			// request depends on which push comes first (see DESIGN 6.5).
+			if st := w.streams[d.ID]; st != nil && st.alive && len(w.w.Tasks()) == 0 && (full || i == 1) {
+				ops = append(ops, op{C: i, Kind: "requestStream", Arg: d.ID, Arg2: "none"})
+			}
 			if d.State == "have-local-offer" {
 				ops = append(ops, op{C: i, Kind: "answer", Arg: d.ID})
 			}
@@ -428,6 +437,7 @@ func (w *world) Apply(x seqx.Op) *core.Violation {
 	}
 	w.outcome = o.Kind
 	w.nmsg++
+	mustClose := "" // a stream the server has to close for o.C within this step
 	var obs sig.Obs
 	before := map[int]string{}
 	for _, i := range []int{1, 2} {
@@ -529,6 +539,15 @@ func (w *world) Apply(x seqx.Op) *core.Violation {
 		w.subs[o.C].request = o.Arg
 		obs = w.w.Send(o.C, sig.Msg{"type": "request", "request": r})
 	case "requestStream":
+		if o.Arg2 == "none" {
+			// for the reference: like abort (nothing of the stream until it
+			// is offered again), except that the server has to say close
+			w.subs[o.C].aborted[o.Arg] = true
+			delete(w.subs[o.C].override, o.Arg)
+			mustClose = o.Arg
+			obs = w.w.Send(o.C, sig.Msg{"type": "requestStream", "id": o.Arg, "request": []any{}})
+			break
+		}
 		w.subs[o.C].override[o.Arg] = "audio"
 		obs = w.w.Send(o.C, sig.Msg{"type": "requestStream", "id": o.Arg, "request": []any{"audio"}})
 	case "offer":
@@ -660,6 +679,17 @@ func (w *world) Apply(x seqx.Op) *core.Violation {
 	}
 	if v := w.observe(all, o.C, o.Kind); v != nil {
 		return v
+	}
+	if mustClose != "" {
+		closed := false
+		for _, m := range all[o.C] {
+			if m["type"] == "close" && str(m["id"]) == mustClose {
+				closed = true
+			}
+		}
+		if !closed {
+			return viol("empty-stream-request-ignored", fmt.Sprintf("c%d asked for nothing of the live stream %s (requestStream with an empty list) while holding it, with no push pending, and was not sent a close for it", o.C, mustClose))
+		}
 	}
 	// a subscriber's own abort or request change affects only itself
 	if o.Kind == "abort" || o.Kind == "request" || o.Kind == "requestStream" || o.Kind == "answer" {
